@@ -121,6 +121,7 @@ type Obligation struct {
 	Cover  bool
 	NoAxioms bool
 	Bounded bool
+	Soft bool // thorough-tier extra: only a definite refutation counts, timeouts are listed as undecided
 	Axioms []*Term
 	Tier string
 	Logic  string
